@@ -320,6 +320,26 @@ def run(ctx, model_available=True):
                 continue
             failures.append({"kind": "oracle", "sig": sig, "desc": f"protocol {version}, flush of node 1 racing direct writes to awake node 2 {extra}: {desc}", "case": {"version": version, "extra": extra}})
         r.close()
+    # a command written directly (node awake) whose write is still suspended when the node
+    # announces that it sleeps and a newer command for the same key is parked
+    for version in ("2.0", "2.1", "2.2"):
+        for other_first in (False, True):
+            r = Race(version, sleeping=False)
+            acts = [("send", KEYS[0], 100), ("wake", 1), ("send", KEYS[0], 101), ("complete", True)]
+            r.send(KEYS[0], 100)                 # direct write, suspended at the gate
+            if other_first:
+                r.send(KEYS[1], 150)             # a second direct write queued behind it
+            r.wake(1)                            # the listener flags node 1 as sleeping (nothing to release)
+            r.send(KEYS[0], 101)                 # parked: the node sleeps now
+            while r.tr.pending:
+                r.complete(True)
+            r.quiesce([1, 2])
+            dist["schedules_run"] += 1
+            for sig, desc in oracle(r, acts)[:2]:
+                failures.append({"kind": "oracle", "sig": sig,
+                                 "desc": f"protocol {version}: direct write of tag100 suspended, node 1 goes to sleep, tag101 parked for the same key, write completes: {desc}",
+                                 "case": {"version": version, "scenario": "direct-write-then-sleep"}})
+            r.close()
     if model_available:
         outs = d.run()
         for (version, acts, w, b, s), mout in zip(expect, outs):
